@@ -233,9 +233,12 @@ class Parser(Node):
             self.parsed.append('part_value')
             return
         # If not block value, parse standard text value
-        # a quoted value ends at the first closing quote that is followed only by units and/or a comment
-        tail = r'(?=(?:\s+[^\s#=]+)?\s*(?:#.*)?$)'
-        m=re.match(r'^(("""(.*)"""|"(.*?)"'+tail+r'|\'(.*?)\''+tail+r'|([^# ]+)))', self.ccode)
+        # a quoted value ends at the last closing quote that is followed only by units and/or a comment,
+        # but never extends over a closing quote that is followed by (units and) a comment
+        tail = r'(?:\s+[^\s#="\x27]+)?\s*'
+        dquote = r'"((?:(?!"'+tail+r'#).)*)"(?='+tail+r'(?:#.*)?$)'
+        squote = dquote.replace('"', "\\'")
+        m=re.match(r'^(("""(.*)"""|'+dquote+r'|'+squote+r'|([^# ]+)))', self.ccode)
         if m:
             self.parsed.append('part_value')
             # Reduce matches
